@@ -156,6 +156,31 @@ def register(R):
       bounded='bounded_ownership',
       note='bounded: pool of exactly two workers (loop unrolled), all ownership states symbolic'))
 
+  # liveness / capacity of a client: ASSUMED contracts (they query the transport), pure w.r.t. ownership
+  R.add(Contract(f'{CU}::CourierClient.has_capacity', 'trusted', types=dict(self='Worker'), ret='bool',
+                 note='ASSUMED: does not touch ownership state'))
+  R.add(Contract(f'{CU}::CourierClient.is_alive', 'trusted', types=dict(self='Worker'), ret='bool',
+                 note='ASSUMED: does not touch ownership state'))
+  WINV = ['w0._lock.locked() == (w0._worker_pool is not None)', 'w1._lock.locked() == (w1._worker_pool is not None)']
+  for acquire in (True, False):
+    R.add(Contract(
+        f'{CW}::WorkerPool.next_idle_worker', P, variant='maybe-acquire' if acquire else 'no-acquire',
+        types=dict(self='WorkerPool', workers='none', maybe_acquire=f'const:{acquire}'), ret='Worker?', setup=_setup_pool,
+        modifies=['w0._worker_pool', 'lock:w0._lock', 'w1._worker_pool', 'lock:w1._lock'],
+        requires=WINV,
+        ensures=WINV + [
+            # the worker handed out is owned by this pool ...
+            'implies(result is w0, w0._worker_pool is self)', 'implies(result is w1, w1._worker_pool is self)',
+            # ... and it is the ONLY worker this call may have newly acquired: an unusable worker is not kept
+            'implies(result is not w0 and old(w0._worker_pool) is not self, w0._worker_pool is old(w0._worker_pool))',
+            'implies(result is not w1 and old(w1._worker_pool) is not self, w1._worker_pool is old(w1._worker_pool))',
+            # nobody else's worker is ever taken over
+            'implies(old(w0._worker_pool) is not None and old(w0._worker_pool) is not self, w0._worker_pool is old(w0._worker_pool))',
+            'implies(old(w1._worker_pool) is not None and old(w1._worker_pool) is not self, w1._worker_pool is old(w1._worker_pool))',
+        ] + ([] if acquire else ['w0._worker_pool is old(w0._worker_pool) and w1._worker_pool is old(w1._worker_pool)']),
+        bounded='bounded_release',
+        note='bounded: pool of exactly two workers (loops unrolled), ownership/liveness/capacity symbolic'))
+
   R.bounded_checks[P] = [
       ('bounded_registry', 'register/refresh/unregister histories vs reference registry'),
       ('liveness_after_death', 'late heartbeat / pending completion after a worker was declared dead (CourierClient.is_alive)'),
